@@ -31,7 +31,7 @@ LEVEL = "model_checking"
 ALL_LEAVES = ["u1", "u2", "s2", "s3", "e2", "f3", "se2"]
 ENUM_CLASSES = ["e2", "se2", "f3", "e3", "se3", "f3a", "f4c", "f3m", "f3k"]
 INVARIANTS = ["Placement", "NestedSlices", "PackUnpack", "ReadBack", "AssignFrame", "TypedInit", "FlagLaws", "EnumValues"]
-ACTIONS = ["AddLeaf", "AddNested", "FinishArray", "FinishFlex", "EnumCase"]
+ACTIONS = ["AddLeaf", "AddNested", "FinishArray", "FinishFlex"]
 
 
 def _set(xs):
@@ -56,17 +56,17 @@ def params(thorough):
     if thorough:
         return {"MaxBits": 10, "MaxFields": 3, "NestedMaxFields": 2, "MaxNested": 1, "InnerMaxFields": 3, "MaxArr": 3,
                 "FullBits": 3, "Leaves": ALL_LEAVES, "InnerLeaves": ["u1", "s3", "e2", "f3", "se2"], "SibLeaves": ALL_LEAVES,
-                "FlexOffs": [0, 2], "FlexPads": [0, 1], "EnumClasses": ENUM_CLASSES}
+                "FlexOffs": [0, 2], "FlexPads": [0, 1], "EnumClasses": ENUM_CLASSES, "FlagTier": "thorough"}
     return {"MaxBits": 8, "MaxFields": 3, "NestedMaxFields": 2, "MaxNested": 1, "InnerMaxFields": 2, "MaxArr": 3,
             "FullBits": 3, "Leaves": ALL_LEAVES, "InnerLeaves": ["u1", "s2", "e2", "f3"], "SibLeaves": ["u1", "s3", "e2", "se2"],
-            "FlexOffs": [0, 2], "FlexPads": [0, 1], "EnumClasses": ENUM_CLASSES}
+            "FlexOffs": [0, 2], "FlexPads": [0, 1], "EnumClasses": ENUM_CLASSES, "FlagTier": "quick"}
 
 
 def params_b(thorough):
     """second family (thorough): three fields of which one or two are nested layouts"""
     return {"MaxBits": 10, "MaxFields": 1, "NestedMaxFields": 3, "MaxNested": 2, "InnerMaxFields": 1, "MaxArr": 2,
             "FullBits": 3, "Leaves": ["u1", "s2", "se2"], "InnerLeaves": ["s3", "e2", "f3"],
-            "SibLeaves": ["u1", "s2", "se2"], "FlexOffs": [1], "FlexPads": [1], "EnumClasses": []}
+            "SibLeaves": ["u1", "s2", "se2"], "FlexOffs": [1], "FlexPads": [1], "EnumClasses": [], "FlagTier": "none"}
 
 
 # =============================================================================================
@@ -76,7 +76,7 @@ _enum_cache = {}
 
 
 def _boundary(lib, name):
-    return {"strict": lib.STRICT, "conform": lib.CONFORM, "keep": lib.KEEP}[name]
+    return {"strict": lib.STRICT, "conform": lib.CONFORM, "keep": lib.KEEP, "eject": lib.EJECT}[name]
 
 
 def make_enum(rec, pure_python=False):
@@ -99,7 +99,7 @@ def make_enum(rec, pure_python=False):
     def body(ns):
         for i, v in enumerate(members):
             ns["M%d" % i] = v
-    cls = types.new_class(("Py_" if pure_python else "") + rec["name"].upper(), (base,), kw, body)
+    cls = types.new_class(("Py_" if pure_python else "") + re.sub(r"\W+", "_", rec["name"]).upper(), (base,), kw, body)
     _enum_cache[key] = cls
     return cls
 
@@ -875,6 +875,55 @@ def sim_batch(cases, out, opts):
 # ---------------------------------------------------------------------------------------------
 # enumerations
 # ---------------------------------------------------------------------------------------------
+def _pyval(x):
+    """Python's result as an integer: a Flag member's value, or the int an EJECT class returned"""
+    import enum as py_enum
+    return x.value if isinstance(x, py_enum.Enum) else x
+
+
+def spec_selftest_flag(rec, tab, P):
+    """The specification's flag tables against Python's enum.Flag (machinery check: the spec claims to state
+    Python's semantics; a disagreement is an error of the specification, not a verdict on amaranth)."""
+    import enum as py_enum
+    import operator
+    name = rec["name"]
+    w = rec["w"]
+    fail = lambda what: MachineryError("specification and Python's enum.Flag disagree on %s: %s" % (name, what))
+    masks = (P._flag_mask_, P._singles_mask_, P._all_bits_)
+    if tuple(tab["masks"]) != masks:
+        raise fail("(flag, singles, all bits) masks %r vs %r" % (tab["masks"], masks))
+    valid = set(tab["valid"])
+    for v in range(1 << w):
+        try:
+            m = P(v)
+            ok = isinstance(m, P) and m.value == v
+        except ValueError:
+            ok = False
+        if ok != (v in valid):
+            raise fail("is %d a value of the class: %r vs %r" % (v, v in valid, ok))
+    if sorted(valid | set(tab["invalid"])) != list(range(1 << w)):
+        raise fail("valid/invalid do not partition the patterns")
+    vs = tab["valid"]
+    for x, va in enumerate(vs):
+        if _pyval(~P(va)) != tab["nots"][x]:
+            raise fail("~%d: %r vs %r" % (va, tab["nots"][x], _pyval(~P(va))))
+        if tab["notbits"][x] != tab["nots"][x] % (1 << w):
+            raise fail("notbits of %d" % va)
+        if bool(P(va)) != tab["bools"][x]:
+            raise fail("bool(%d)" % va)
+        for y, vb in enumerate(vs):
+            t = tab["ops"][x][y]
+            for ki, op in enumerate((operator.or_, operator.and_, operator.xor)):
+                try:
+                    py = _pyval(op(P(va), P(vb)))
+                except ValueError:
+                    py = None           # Python refuses the result: the specification must say "no value of the class"
+                if (py is None) != (t[ki] not in valid) or (py is not None and py != t[ki]):
+                    raise fail("%d %s %d: %r (a value: %r) vs %r" % (va, op.__name__, vb, t[ki], t[ki] in valid, py))
+            if (t[3], t[4]) != (P(va) == P(vb), P(va) in P(vb)):
+                raise fail("%d (==, in) %d: %r vs %r" % (va, vb, t[3:], (P(va) == P(vb), P(va) in P(vb))))
+
+
 def check_enum(rec, tab, out, opts):
     import operator
     from amaranth.hdl import Module, Signal, Shape, Const, Value
@@ -884,11 +933,18 @@ def check_enum(rec, tab, out, opts):
     P = make_enum(rec, pure_python=True)
     name = rec["name"]
     kind = "Flag" if rec["flag"] else "Enum"
-    bad = lambda clause, desc, **kw: out.violation(dict({"clause": clause, "enum": name, "enum_kind": kind}, **kw),
+    extra = {"boundary": rec["boundary"]} if rec["flag"] else {}
+    bad = lambda clause, desc, **kw: out.violation(dict({"clause": clause, "enum_kind": kind}, **extra, **kw),
                                                    "%s %s: %s" % (kind, name, desc), rec)
     want_shape = Shape(rec["w"], rec["s"])
     if Shape.cast(E) != want_shape:
         bad("enum_shape", "Shape.cast = %r, specification %r" % (Shape.cast(E), want_shape))
+    if rec["flag"]:
+        spec_selftest_flag(rec, tab, P)
+        out.count("flag_classes")
+        if not tab["notspec"]:
+            out.count("flag_classes_invert_unspecified")
+    valid = set(tab["valid"])
     for v in tab["valid"]:
         if P(v).value != v:
             raise MachineryError("specification says %d is a value of %s, Python's enum gives %r" % (v, name, P(v)))
@@ -923,60 +979,67 @@ def check_enum(rec, tab, out, opts):
         exprs.update({"or": a | b, "and": a & b, "xor": a ^ b, "not": ~a})
     outs = {}
     for k, e in exprs.items():
-        o = Signal(Value.cast(e).shape(), name="o_" + k)
+        o = Signal(len(Value.cast(e)) + 1, name="o_" + k)       # one bit wider: a result wider than the shape shows
         m.d.comb += o.eq(e)
         outs[k] = o
-    try:
-        rtlil.convert(m, ports=[Value.cast(a), Value.cast(b)] + list(outs.values()))
-        out.count("rtlil_designs")
-    except Exception as e:
-        bad("rtlil_convert", "rtlil.convert of a design with Signal(%s) raised %r" % (name, e), error=_exc(e), signed_enum=rec["s"])
+    if opts["rtlil"] is True or (opts["rtlil"] and zlib.crc32(name.encode()) % opts["rtlil"] == 0):
+        try:
+            rtlil.convert(m, ports=[Value.cast(a), Value.cast(b)] + list(outs.values()))
+            out.count("rtlil_designs")
+        except Exception as e:
+            bad("rtlil_convert", "rtlil.convert of a design with Signal(%s) raised %r" % (name, e), error=_exc(e), signed_enum=rec["s"])
     sim = Simulator(m)
     vs = tab["valid"]
     pyop = {"or": operator.or_, "and": operator.and_, "xor": operator.xor}
+
+    def lifted(ctx, expr, want):
+        """ctx.get of the view itself (through from_bits) when the result is a value of the class"""
+        if want not in valid:
+            return want
+        return _num(ctx.get(expr))
 
     async def tb(ctx):
         for x, va in enumerate(vs):
             ctx.set(a, E(va))
             if ctx.get(a) != E(va) or ctx.get(Value.cast(a)) != va:
                 bad("enum_round_trip", "ctx.set(sig, %r); ctx.get(sig) = %r" % (E(va), ctx.get(a)), api="sim")
-            if rec["flag"]:
-                want = tab["nots"][x]
-                py = (~P(va)).value
-                if py != want:
-                    raise MachineryError("specification and Python's enum.Flag disagree on ~%d in %s: %r vs %r" % (va, name, want, py))
-                g1, g2 = ctx.get(exprs["not"]), ctx.get(outs["not"])
-                out.count("flag_ops")
-                if _num(g1) != want or g2 != want:
-                    bad("flag_op", "~%r: FlagView gives %r (compiled %r), specification and enum.Flag give %r" % (E(va), g1, g2, want), op="not")
-                c = ~E.const(va)            # the same on a constant view, evaluated by the simulator
-                if ctx.get(Value.cast(c)) != want:
-                    bad("flag_op", "~const(%d) = %r, specification %r" % (va, ctx.get(Value.cast(c)), want), op="not", api="const")
+            ca = E.const(va)
+            if rec["flag"] and tab["notspec"]:
+                want = tab["notbits"][x]
+                got = (ctx.get(Value.cast(exprs["not"])), ctx.get(outs["not"]), ctx.get(Value.cast(~ca)), lifted(ctx, exprs["not"], want))
+                out.count("flag_ops", 4)
+                if got != (want,) * 4:
+                    bad("flag_op", "~%r: view of a signal gives %r, compiled %r, view of a constant %r, lifted %r; specification "
+                        "(= enum.Flag) %r" % (E(va), got[0], got[1], got[2], got[3], want), op="not")
             for y, vb in enumerate(vs):
                 ctx.set(b, E(vb))
+                cb = E.const(vb)
                 want_eq = 1 if va == vb else 0
-                for k, w in (("eq", want_eq), ("ne", 1 - want_eq)):
-                    g1, g2 = ctx.get(exprs[k]), ctx.get(outs[k])
-                    out.count("flag_ops")
-                    if g1 != w or g2 != w:
-                        bad("flag_op", "%r %s %r gives %r (compiled %r)" % (E(va), k, E(vb), g1, g2), op=k)
-                if ctx.get(a == E(vb)) != want_eq:
-                    bad("flag_op", "view(%r) == member %r gives %r" % (E(va), E(vb), ctx.get(a == E(vb))), op="eq", api="member")
+                if rec["flag"] and bool(tab["ops"][x][y][3]) != bool(want_eq):
+                    raise MachineryError("specification == table of %s" % name)
+                for k, wv in (("eq", want_eq), ("ne", 1 - want_eq)):
+                    cmp = operator.eq if k == "eq" else operator.ne
+                    got = (ctx.get(exprs[k]), ctx.get(outs[k]), ctx.get(cmp(a, E(vb))), ctx.get(cmp(ca, cb)), ctx.get(cmp(ca, b)))
+                    out.count("flag_ops", 5)
+                    if got != (wv,) * 5:
+                        bad("flag_op", "%r %s %r gives %r (signals, compiled, member operand, constants, constant and signal)" % (
+                            E(va), k, E(vb), got), op=k)
                 if not rec["flag"]:
                     continue
                 for ki, k in enumerate(("or", "and", "xor")):
                     want = tab["ops"][x][y][ki]
-                    py = pyop[k](P(va), P(vb)).value
-                    if py != want:
-                        raise MachineryError("specification and Python's enum.Flag disagree on %d %s %d in %s: %r vs %r" % (
-                            va, k, vb, name, want, py))
-                    g1, g2 = ctx.get(exprs[k]), ctx.get(outs[k])
-                    g3 = ctx.get(pyop[k](a, E(vb)))          # member operand
-                    g4 = ctx.get(pyop[k](E(va), b))          # reflected
-                    out.count("flag_ops", 4)
-                    if _num(g1) != want or g2 != want or _num(g3) != want or _num(g4) != want:
-                        bad("flag_op", "%r %s %r: FlagView gives %r (compiled %r, member operand %r, reflected %r), specification "
-                            "and enum.Flag give %r" % (E(va), k, E(vb), g1, g2, g3, g4, want), op=k)
+                    if want not in valid:
+                        out.count("flag_ops_undefined")      # Python raises: no defined result
+                        continue
+                    got = (ctx.get(Value.cast(exprs[k])), ctx.get(outs[k]),
+                           ctx.get(Value.cast(pyop[k](a, E(vb)))),          # member operand
+                           ctx.get(Value.cast(pyop[k](E(va), b))),          # reflected
+                           ctx.get(Value.cast(pyop[k](ca, cb))),            # views of constants
+                           lifted(ctx, exprs[k], want))
+                    out.count("flag_ops", 6)
+                    if got != (want,) * 6:
+                        bad("flag_op", "%r %s %r: (signals, compiled, member operand, reflected, constants, lifted) = %r, "
+                            "specification (= enum.Flag) %r" % (E(va), k, E(vb), got, want), op=k)
     sim.add_testbench(tb)
     try:
         sim.run()
@@ -1162,7 +1225,8 @@ def run(ctx):
 
     # ---------------- mc: theorems over the family; mutants; random trees -------------------------
     from concurrent.futures import ThreadPoolExecutor
-    small = dict(p, MaxFields=2, NestedMaxFields=0, MaxNested=0, MaxBits=6, InnerLeaves=["u1"], Leaves=["u1", "s2", "f3"])
+    small = dict(p, MaxFields=2, NestedMaxFields=0, MaxNested=0, MaxBits=6, InnerLeaves=["u1"], Leaves=["u1", "s2", "f3"],
+                 FlagTier="small")
     families = [("A", p)] + ([("B", params_b(th))] if th else [])
     n_rand = 1000 if th else 100
     tops, seen = [], set()
@@ -1184,7 +1248,8 @@ def run(ctx):
         dump = os.path.join(ctx.tmp, "dl_%s" % fam)
         r = ctx.tlc("DataLayout", stage="mc/family-" + fam, cfg_text=cfg_text(pp), workers=16,
                     args=("-coverage", "1", "-dump", dump), timeout=3000)
-        ctx.require_actions(r, ACTIONS if pp["EnumClasses"] else ACTIONS[:-1], "mc/family-" + fam)
+        ctx.require_actions(r, ACTIONS + (["EnumCase"] if pp["EnumClasses"] else []) +
+                            (["FlagCase"] if pp["FlagTier"] != "none" else []), "mc/family-" + fam)
         return dump + ".dump"
 
     def rand(_):
@@ -1247,7 +1312,7 @@ def run(ctx):
     need = ["layouts", "layouts_struct", "layouts_union", "layouts_array", "layouts_flex", "layouts_nested", "placement",
             "pairs", "class_pairs", "const_reads", "const_inits", "sim_pairs", "sim_reads", "sim_dyn_reads", "sim_assign",
             "sim_set", "rtlil_designs", "enums", "enum_round_trips", "flag_ops", "typed_const_inits", "class_defaults",
-            "sim_inits"]
+            "sim_inits", "flag_classes", "flag_classes_invert_unspecified"]
     for k in need:
         if totals.get(k, 0) == 0:
             raise MachineryError("vacuous run: nothing counted for %r (%r)" % (k, totals))
@@ -1268,8 +1333,15 @@ def run(ctx):
                        "cases are a structured subset (%d rounds per layout)" % (p["MaxBits"], opts["asg_rounds"]))
     ctx.assume("initialisers are in range of their fields; enumeration fields are initialised/assigned with valid values only")
     ctx.assume("bit patterns that are no value of an enumeration field: only the numeric value of the view field is compared "
-               "(Const.__getitem__ must raise); flag classes have a one-bit member for every used bit; boundary EJECT and "
-               "KEEP classes narrower than their shape are not generated (Python and FlagView are documented differently)")
+               "(Const.__getitem__ must raise); operands of flag operators are the values Python's class admits "
+               "(combinations of bits used by members; any pattern for boundary=KEEP)")
+    ctx.assume("`~` of a FlagView is UNSPECIFIED for boundary=KEEP/EJECT classes whose shape is wider than the members need "
+               "(Python complements up to the highest member bit, a view complements the bits of its shape; "
+               "docs/stdlib/enum.rst does not mention boundary=): DataLayout!InvertSpecified; %d of %d flag classes; every "
+               "other operator is compared on them, and the specification's ~ is still cross-checked against Python's "
+               "enum.Flag for every class" % (totals.get("flag_classes_invert_unspecified", 0), totals.get("flag_classes", 0)))
+    ctx.assume("a | b, a & b, a ^ b of flag views are compared where Python defines the result (the bitwise result is a value "
+               "of the class; a STRICT class with multi-bit members of their own bits refuses some combinations)")
     ctx.assume("dynamic indexing of array views: index < length, element width > 0, index signal at least one bit wide")
     ctx.assume("synthesis: the batched designs are converted with back.rtlil.convert (must elaborate); RTLIL semantics are "
                "judged by C04")
